@@ -880,7 +880,15 @@ func c13_6(c *core.Ctx, p *core.Prog) {
 			msgs = append(msgs, "the fresh record builder is not built from the re-derived schema")
 		}
 	}
-	c.Check(len(msgs) == 0, "fresh-builder", pos, core.FuncName(fn), "fresh array.RecordBuilder installed, old one released", strings.Join(msgs, "; "))
+	if st != nil {
+		// unconditional: a schema update is served in the middle of an aborted attempt (rows were appended to
+		// the current builder and NewRecord reported "not up to date"); the fresh builder is what discards
+		// them, also when the update changes nothing the schema id shows (a sorting-columns metadata change)
+		if skip, _ := (core.PathQuery{Fn: fn, Avoid: func(i ssa.Instruction) bool { return i == ssa.Instruction(st) }, ExitReturnOnly: true}).Exists(); skip {
+			msgs = append(msgs, "UpdateSchema can return without having replaced the record builder (a short-cut for an 'unchanged' schema): the rows the aborted attempt appended stay in the builder and are encoded a second time by the retry")
+		}
+	}
+	c.Check(len(msgs) == 0, "fresh-builder", pos, core.FuncName(fn), "fresh array.RecordBuilder installed on every path, old one released", strings.Join(msgs, "; "))
 	// schema id recomputed from the new schema (C04.4)
 	okID := false
 	if idStore != nil && mk != nil {
